@@ -134,7 +134,7 @@ Section Gc.
 
   Lemma norm_prologue st : NoDup (map t_id (live st)) -> norm (prologue c st) = norm st.
   Proof.
-    intro H. unfold prologue. destruct (aw_cnt st =? 0); rewrite norm_set_aw; [apply norm_auto_waste; exact H|reflexivity].
+    intro H. rewrite prologue_eq. destruct (aw_cnt st =? 0); rewrite norm_set_aw; [apply norm_auto_waste; exact H|reflexivity].
   Qed.
 
   Lemma auto_waste_norm st : NoDup (map t_id (live st)) -> auto_waste c (norm st) = norm st.
@@ -148,7 +148,7 @@ Section Gc.
 
   Lemma prologue_norm st : NoDup (map t_id (live st)) -> prologue c (norm st) = norm st.
   Proof.
-    intro H. unfold prologue. change (aw_cnt (norm st)) with 0. cbn [N.eqb]. rewrite auto_waste_norm by exact H. reflexivity.
+    intro H. rewrite prologue_eq. change (aw_cnt (norm st)) with 0. cbn [N.eqb]. rewrite auto_waste_norm by exact H. reflexivity.
   Qed.
 
   (* relevant tracks are not expired w.r.t. the epochs before next_epoch *)
